@@ -21,24 +21,26 @@ Proof.
   apply nth_error_None in E. lia.
 Qed.
 
-(* ascending loop *)
+(* ascending loop: no side condition — when i + k leaves i64 the loop stops, and so does Python's
+   range (i + k > MAX64 >= e) *)
 Lemma loop_up m l k e :
   k > 0 -> zlen l <= MAX64 -> e <= zlen l ->
   forall fuel i, 0 <= i -> Z.of_nat fuel > e - i -> (fuel >= 1)%nat ->
-    i + py_range_len i e k * k <= MAX64 ->
     slice_loop fuel m l i e k = OVal (select l (py_range_list i e k)).
 Proof.
-  intros Hk Hl He. induction fuel as [|f IH]; intros i Hi Hf Hf1 Hov; [lia|].
+  intros Hk Hl He. induction fuel as [|f IH]; intros i Hi Hf Hf1; [lia|].
   cbn [slice_loop]. replace (k >? 0) with true by lia.
   destruct (i <? e) eqn:Hie.
   - pose proof (range_len_up_step i e k Hk ltac:(lia)) as Hlen.
-    pose proof (range_len_nonneg (i + k) e k) as Hnn.
-    assert (Hmul : 0 <= py_range_len (i + k) e k * k) by (apply Z.mul_nonneg_nonneg; lia).
-    rewrite add64_ok by (i64_facts; lia).
-    rewrite IH; [| lia | lia | lia | lia].
     rewrite (range_list_cons i e k Hlen). cbn [select].
     unfold push_get. rewrite get_i64_inside by lia.
-    destruct (nth_error_inside l i ltac:(lia)) as [v ->]. reflexivity.
+    destruct (nth_error_inside l i ltac:(lia)) as [v Hv]. rewrite Hv.
+    unfold chk64. destruct (in_i64b (i + k)) eqn:Hin.
+    + rewrite IH; [reflexivity | lia | lia | lia].
+    + assert (Hbig : i + k > MAX64).
+      { destruct (Z_le_gt_dec (i + k) MAX64) as [Hle|Hgt]; [|exact Hgt].
+        exfalso. assert (in_i64b (i + k) = true) by (apply in_i64b_spec; i64_facts; lia). congruence. }
+      rewrite range_list_nil by (apply range_len_up_stop; lia). reflexivity.
   - rewrite range_list_nil by (apply range_len_up_stop; lia). reflexivity.
 Qed.
 
@@ -52,7 +54,8 @@ Proof.
   cbn [slice_loop]. replace (k >? 0) with false by lia.
   destruct (i >? e) eqn:Hie.
   - pose proof (range_len_down_step i e k Hk ltac:(lia)) as Hlen.
-    rewrite add64_ok by (i64_facts; lia).
+    unfold chk64. replace (in_i64b (i + k)) with true
+      by (symmetry; apply in_i64b_spec; i64_facts; lia).
     rewrite IH; [| lia | lia | lia].
     rewrite (range_list_cons i e k Hlen). cbn [select].
     unfold push_get. rewrite get_i64_inside by lia.
